@@ -98,14 +98,15 @@ class Row(Vector):
 			self._dtype = DataType(object, nullable=True)
 		else:
 			# Check uniformity of column types
+			# (an empty, untyped column has no dtype yet: count it as object?)
 			col_dtypes = [col._dtype for col in table._underlying]
-			unique_kinds = {dt.kind for dt in col_dtypes}
+			unique_kinds = {dt.kind if dt is not None else object for dt in col_dtypes}
 			
 			if len(unique_kinds) == 1:
 				# Homogeneous (Matrix-like)
 				kind = unique_kinds.pop()
 				# If ANY column is nullable, the row vector must be nullable
-				is_nullable = any(dt.nullable for dt in col_dtypes)
+				is_nullable = any(dt is None or dt.nullable for dt in col_dtypes)
 				self._dtype = DataType(kind, nullable=is_nullable)
 			else:
 				# Heterogeneous (DataFrame-like)
